@@ -729,7 +729,11 @@ class MemorizedFunc(Logger):
                 self.store_backend.get_cached_func_code([self.func_id])
             )
         except (IOError, OSError):  # some backend can also raise OSError
-            self._write_func_code(func_code, first_line)
+            # No recorded code: results found here, if any, were computed by
+            # unknown code (e.g. the process clearing this function's cache
+            # was killed after removing func_code.py but before removing all
+            # the results) and cannot be trusted.
+            self.clear(warn=False)
             return False
         if old_func_code == func_code:
             return True
